@@ -111,7 +111,7 @@ partial def loop (h : IO.FS.Stream) (out : IO.FS.Stream) (c : Conf) : IO Unit :=
     | [_, got] =>
       match C11.parseEnv got with
       | some e =>
-        let bad := C11.checkParam e
+        let bad := C11.checkParam e ++ C18.checkTwistAgainstTable e
         out.putStrLn (if bad.isEmpty then "ok ep2_param" else "FAIL S model=[] spec=[" ++ String.intercalate ";" bad ++ "] got=[" ++ got ++ "]")
         loop h out { c with ep2 := some e }
       | none =>
